@@ -5,3 +5,4 @@ import Reduino.Driver.Fw
 import Reduino.Driver.Lcd
 import Reduino.Driver.Heap
 import Reduino.Driver.Lang
+import Reduino.Driver.EC
